@@ -22,6 +22,7 @@ RULE = ('(1) small scope: EVERY sequence of length 1..4 over a 10-value float al
         '(fractions.Fraction) on the same floats with the textbook forward-error bounds (recursive summation; Chan-Golub-LeVeque '
         'for Welford / two-pass variance). Non-trivial = sequence with >= 2 distinct values; states = distinct (operator, item '
         'count, accumulated exact statistic) observations; transitions = items pushed.')
+DEEP_PROBES = ('magnitudes around 1e152 and DBL_MAX')
 ASSUMPTIONS = ['"all floats" is not enumerable: the float alphabet and the structured grid are what is covered',
                'error bounds: |err(sum)| <= 2 n u sum|x|; |err(var)| <= 8 n u sqrt(V (V + M^2)) + 8 (n u)^2 (V + M^2), u = 2^-53',
                'formal.* streaming is O(n^2) by design and checked up to length 1000; its reduce form up to 10^4']
